@@ -770,5 +770,10 @@ pub fn run(tier: &str) -> Vec<Grid> {
     let mut re = Grid::new("c07.reentrant", "make_mut / make_unique / OffsetArc::make_mut / unwrap_or_clone x 1-2 co-owners of every kind x every subset of them released by the payload's own Clone x Clone adds an owner x Clone panics x the first destructor to run panics; with_arc_mut callback replacing the Arc x how x shared x k-th destructor of the old value panicking");
     crate::c07r::reentrant_faults(&mut re);
     crate::c07r::replace_drop_panic(&mut re);
-    vec![a, b, c, d, dp, re, e]
+    #[allow(unused_mut)]
+    let mut all = vec![a, b, c, d, dp, re, e];
+    // the serde impls run user code too: panicking serializer / deserializer callbacks
+    #[cfg(feature = "cfg_default")]
+    all.push(crate::c17::panic_grid());
+    all
 }
